@@ -6,6 +6,7 @@ import CssVerif.Lemmas.TokLex2Sep
 import CssVerif.Lemmas.TokStrItems
 import CssVerif.Lemmas.TokIdentU
 import CssVerif.Lemmas.TokURange
+import CssVerif.Lemmas.TokNum
 import CssVerif.Lemmas.TokFull
 import CssVerif.Lemmas.TokLex2Full
 import CssVerif.Lemmas.TokPush
@@ -410,6 +411,29 @@ space: URI and UNICODE-RANGE, which start with the same letter, do not match -/
 theorem ident_u_class (doC : Bool) (u : Nat) (hu : IsU u) (cs stop : Cps) (hcs : ∀ x ∈ cs, inR identRest x = true)
     (hs : Sep stop) : scan false doC (u :: cs ++ stop) productions = .hit "IDENT" (u :: cs).length :=
   scan_ident_u doC u hu cs stop hcs hs
+
+/-- **a pattern consumes only code points of its classes**: when all classes of `r` are positive and lie inside the
+ranges `cs`, every success of `r` covers code points of `cs` only (so a number match cannot reach into what follows
+the number: `numRe_ms_le`) -/
+theorem pattern_consumes_its_classes (cs : List (Nat × Nat)) (r : Re) (h : consumesIn cs r = true) (s : Cps) (l : Nat)
+    (hl : l ∈ r.ms s) : ∀ x ∈ s.take l, inR cs x = true :=
+  consumesIn_sound cs r h s l hl
+
+/-- numbers with sign and fraction, at the level of the number pattern (`{num}` = `reNUMBER`): an optional sign,
+digits (possibly none), `.`, at least one digit is matched exactly when no digit follows.
+Full statement (class theorem): `scan … = .hit "NUMBER" …` for such a number followed by the end of the text or a
+space, and the PERCENTAGE / DIMENSION analogues. Missing: the scan over the productions before NUMBER (IDENT / FUNCTION
+after a leading `-`, DIMENSION and PERCENTAGE through `numRe_then_nil`). -/
+theorem number_fraction_first_partial (sg ip : Cps) (d : Nat) (ds stop : Cps) (hsg : IsSign sg)
+    (hip : ∀ c ∈ ip, isDigit c = true) (hd : ∀ c ∈ d :: ds, isDigit c = true)
+    (hs : HeadIn (fun c => isDigit c = false) stop) :
+    reNUMBER.first (sg ++ (ip ++ 46 :: d :: (ds ++ stop))) = some (sg.length + (ip.length + (1 + (1 + ds.length)))) :=
+  numRe_first_frac sg ip d ds stop hsg hip hd hs
+
+/-- `-12.50 ` and `.5` -/
+example : reNUMBER.first ([45] ++ ([49, 50] ++ 46 :: 53 :: ([48] ++ [32]))) = some 6 ∧
+    reNUMBER.first ([] ++ ([] ++ 46 :: 53 :: ([] ++ []))) = some 2 := by decide
+example : IsSign [45] ∧ IsSign [] := ⟨Or.inr (Or.inr rfl), Or.inl rfl⟩
 
 /-- S: a run of white space (tab, CR, LF, FF, space) up to the end of the text or a code point that is not white
 space -/
